@@ -13,9 +13,11 @@ import Rsa.Lemmas.C01Label
 import Rsa.Lemmas.C01Reorder
 import Rsa.Lemmas.C01Calc
 import Rsa.Lemmas.C01Build
+import Rsa.Lemmas.C01Top
 
 set_option linter.unusedSectionVars false
 set_option linter.unusedVariables false
+set_option linter.unusedSimpArgs false
 
 namespace Rsa.Props.C01
 
@@ -514,6 +516,463 @@ theorem mergeRdmDescs_spec {V : Type} (dss : List (List (String × V))) (k : Nat
       exact ⟨d, List.mem_of_getElem? hk, mem_keys_of_lookup hv⟩
     rw [if_pos hmem]
     exact ⟨_, rfl, by simp [hk, hv]⟩
+
+/-! ### the call layer (round 3): dispatch, option forwarding, descriptors, input forms -/
+
+section callLayer
+variable {S : Type}
+
+/-- method-name dispatch and option forwarding of `calc_rdm` (every decision a leaf derived
+    from today's source): for each of the four method names the call reaches the estimator
+    the name says, with the user's noise / priors (signature defaults 1 and 0.1) and with the
+    `remove_mean` flag forwarded to euclidean / mahalanobis only, always-on for correlation
+    and never for poisson — i.e. the call layer computes `distVec` of the options' meaning -/
+theorem calcRdm_dispatch (P : Nat) (sqrt lg : K → K) (o : Opts K) (ho : o.method < 4)
+    (M : List (Row K)) :
+    topVec P sqrt lg o M = some (distVec P sqrt lg o.spec.1 o.spec.2 M) := by
+  have h : o.method = 0 ∨ o.method = 1 ∨ o.method = 2 ∨ o.method = 3 := by omega
+  rcases h with h | h | h | h
+  · simp [topVec, h, Rsa.Gen.C01.dispatch, Rsa.Gen.C01.parseFlag, distVecF, Opts.spec, distVec,
+      b2n_beq_one]
+  · simp [topVec, h, Rsa.Gen.C01.dispatch, Rsa.Gen.C01.parseFlag, distVecF, Opts.spec, distVec,
+      prep, corrMatRaw_centre]
+  · cases hn : o.noise <;>
+    simp [topVec, h, hn, Rsa.Gen.C01.dispatch, Rsa.Gen.C01.parseFlag, Rsa.Gen.C01.fwdNoise,
+      Rsa.Gen.C01.mahalNoneFlag, distVecF, Opts.spec, distVec, b2n_beq_one]
+  · simp [topVec, h, Rsa.Gen.C01.dispatch, Rsa.Gen.C01.parseFlag, Rsa.Gen.C01.fwdPrior, distVecF,
+      Opts.spec, distVec, prep, Rsa.Gen.C01.defaultPriorLambda, Rsa.Gen.C01.defaultPriorWeight]
+
+/-- the documented defaults: method codes mean what their names say and priors default to
+    1 and 0.1 -/
+theorem opts_spec_meaning (o : Opts K) :
+    (o.method = 0 → o.spec = (.euclidean, o.removeMean)) ∧
+    (o.method = 1 → o.spec = (.correlation, o.removeMean)) ∧
+    (o.method = 2 → o.spec = (.mahalanobis o.noise, o.removeMean)) ∧
+    (o.method = 3 → o.spec = (.poisson (o.pl.getD 1) (o.pw.getD (1 / 10)), o.removeMean)) := by
+  refine ⟨fun h => ?_, fun h => ?_, fun h => ?_, fun h => ?_⟩ <;> simp [Opts.spec, h]
+
+/-- the whole single-dataset call (`_parse_input`, estimator, `_build_rdms` with its
+    `_averaging_occurred` shortcut, `sort_by`) is `calcRdm` of the options' meaning -/
+theorem calcRdm_call (P : Nat) (sqrt lg : K → K) (le : L → L → Bool) (o : Opts K)
+    (ho : o.method < 4) (obs : List (L × Row K)) (descs : List (List D))
+    (hd : ∀ dv ∈ descs, dv.length = obs.length) :
+    topRdm P sqrt lg le o obs descs =
+      some (calcRdm P sqrt lg le o.spec.1 o.spec.2 obs descs) := by
+  unfold topRdm
+  simp only [calcRdm_dispatch P sqrt lg o ho, Option.map_some]
+  have : descs.map (buildPat (obs.map (fun p => p.1))) =
+      descs.map (propagate (obs.map (fun p => p.1))) :=
+    List.map_congr_left (fun dv hdv => buildPat_eq_propagate _ dv (by simp [hd dv hdv]))
+  rw [this]
+  rfl
+
+/-- list branch of `calc_rdm`: the per-dataset call gets the same method, priors and
+    `remove_mean` as the list call, and the noise entry with the dataset's own index -/
+theorem list_options_forwarded (o : ListOpts K) (k : Nat) :
+    (o.optsFor k).method = o.method ∧ (o.optsFor k).spec = (o.specFor k).spec ∧
+    (o.specFor k).spec.2 = o.removeMean ∧
+    (o.specFor k).noise = (match o.noise with
+      | .none => none | .one N => some N | .per Ns => (Ns[k]?).getD none) := by
+  refine ⟨rfl, ?_, ?_, rfl⟩
+  · simp only [ListOpts.optsFor, ListOpts.specFor, Opts.spec, Rsa.Gen.C01.listMethod,
+      Rsa.Gen.C01.listNoiseIndex, Rsa.Gen.C01.listPriorLambda, Rsa.Gen.C01.listPriorWeight,
+      Rsa.Gen.C01.listRemoveMean, Rsa.Gen.C01.defaultPriorLambda, Rsa.Gen.C01.defaultPriorWeight,
+      b2n_beq_one, Option.getD_some]
+  · simp only [ListOpts.specFor, Opts.spec]
+    split <;> rfl
+
+
+/-- `_build_rdms`: the one RDM's entry of a dataset descriptor is the value itself; a
+    one-element vector cannot be told from its element (its entry is the element) -/
+theorem rdmEntries_spec :
+    (∀ s : S, rdmEntries (.scalar s) = [.scalar s]) ∧
+    (∀ l : List S, l.length ≠ 1 → rdmEntries (.vec l) = [.vec l]) ∧
+    (∀ x : S, rdmEntries (.vec [x]) = [.scalar x]) ∧
+    (∀ v : DVal S, (rdmEntries v).length = 1) := by
+  refine ⟨fun s => rfl, fun l h => ?_, fun x => ?_, fun v => ?_⟩
+  · simp [rdmEntries, Rsa.Gen.C01.wrapVector, h]
+  · simp [rdmEntries, Rsa.Gen.C01.wrapVector]
+  · cases v with
+    | scalar s => rfl
+    | vec l =>
+      by_cases h : l.length = 1
+      · simp [rdmEntries, Rsa.Gen.C01.wrapVector, h]
+      · simp [rdmEntries, Rsa.Gen.C01.wrapVector, h]
+
+variable {τ : Type}
+
+/-- single dataset: every dataset descriptor is an rdm descriptor of the one RDM, with the
+    dataset's own value -/
+theorem single_rdesc_attached (ddesc : List (String × DVal S)) (n : String) :
+    (singleRdesc (τ := τ) ddesc).lookup n =
+      (ddesc.lookup n).map (fun v => (rdmEntries v).map (fun e => some (Sum.inl e))) := by
+  unfold singleRdesc
+  exact lookup_map_snd ddesc (fun v => (rdmEntries v).map (fun e => some (Sum.inl e))) n
+
+/-- `calc_rdm(ds, …)` through the call layer (dispatch, forwarding, `_build_rdms`): the RDM
+    is `calcRdm` with the options' meaning, its rdm descriptors are the dataset's
+    descriptors, its further pattern descriptors the propagated obs descriptors -/
+theorem calcTop_one (P : Nat) (sqrt lg : K → K) (le : L → L → Bool) (o : ListOpts K)
+    (ho : o.method < 4) (d : DSet K L D S) (hd : ∀ p ∈ d.odesc, p.2.length = d.obs.length) :
+    calcTop (τ := τ) P sqrt lg le o (.one d) =
+      some (let r := calcRdm P sqrt lg le (o.specFor 0).spec.1 o.removeMean d.obs
+              (d.odesc.map (fun p => p.2))
+            { labels := r.labels, vecs := [r.vec.map some], rdesc := singleRdesc d.ddesc,
+              pdesc := (d.odesc.map (fun p => p.1)).zip r.descs }) := by
+  have hd' : ∀ dv ∈ d.odesc.map (fun p => p.2), dv.length = d.obs.length := by
+    intro dv hdv
+    obtain ⟨p, hp, rfl⟩ := List.mem_map.mp hdv
+    exact hd p hp
+  simp only [calcTop, topSingle, calcRdm_call P sqrt lg le (o.specFor 0) ho d.obs _ hd',
+    Option.map_some, stackOfSingle, (list_options_forwarded o 0).2.2.1]
+
+
+/-- `calc_rdm([ds₀, ds₁, …], descriptor)` through the call layer: every dataset is computed with
+    the call's options and its own noise entry; values and labels are `calcRdmList`; the rdm
+    descriptors are the merged dataset descriptors; of the pattern descriptors only the label
+    descriptor survives `from_partials` -/
+theorem calcTop_many (P : Nat) (sqrt lg : K → K) (le : L → L → Bool) (o : ListOpts K)
+    (ho : o.method < 4) (ds : List (DSet K L D S))
+    (hd : ∀ d ∈ ds, ∀ p ∈ d.odesc, p.2.length = d.obs.length) :
+    calcTop (τ := τ) P sqrt lg le o (.many ds) =
+      some (let res := calcRdmList P sqrt lg le
+                (ds.zipIdx.map (fun dk => (o.specFor dk.2).spec.1)) o.removeMean
+                (ds.map (fun d => d.obs))
+            { labels := res.1, vecs := res.2,
+              rdesc := mergeStacks (ds.map (fun d => (1, singleRdesc d.ddesc))),
+              pdesc := [] }) := by
+  set g : DSet K L D S × Nat → Rdm K L D × List (String × List (Option (RVal S τ))) :=
+    fun dk => (calcRdm P sqrt lg le (o.specFor dk.2).spec.1 o.removeMean dk.1.obs
+      (dk.1.odesc.map (fun p => p.2)), singleRdesc dk.1.ddesc) with hg
+  have hs : ds.zipIdx.map (fun dk => topSingle (τ := τ) P sqrt lg le (o.optsFor dk.2) dk.1) =
+      (ds.zipIdx.map g).map some := by
+    rw [List.map_map]
+    apply List.map_congr_left
+    intro dk hdk
+    have hmem : dk.1 ∈ ds := mem_of_mem_zipIdx hdk
+    have hd' : ∀ dv ∈ dk.1.odesc.map (fun p => p.2), dv.length = dk.1.obs.length := by
+      intro dv hdv
+      obtain ⟨p, hp, rfl⟩ := List.mem_map.mp hdv
+      exact hd _ hmem p hp
+    obtain ⟨hm, hsp, hrm, _⟩ := list_options_forwarded o dk.2
+    simp only [topSingle, calcRdm_call P sqrt lg le (o.optsFor dk.2) (by rw [hm]; exact ho) _ _ hd',
+      Option.map_some, Function.comp_apply, hsp, hrm, hg]
+  simp only [calcTop, hs, allSome_eq_some.mpr rfl, Option.map_some]
+  congr 1
+  have hfp : fromPartials ((ds.zipIdx.map g).map (fun s => s.1)) =
+      calcRdmList P sqrt lg le (ds.zipIdx.map (fun dk => (o.specFor dk.2).spec.1)) o.removeMean
+        (ds.map (fun d => d.obs)) := by
+    unfold calcRdmList
+    apply fromPartials_congr
+    rw [← map_zipIdx_fst (fun d : DSet K L D S => d.obs) ds, List.zip_map']
+    simp only [List.map_map]
+    apply List.map_congr_left
+    intro dk _
+    rfl
+  have hrd : (ds.zipIdx.map g).map (fun s => ((1 : Nat), s.2)) =
+      ds.map (fun d => (1, singleRdesc (τ := τ) d.ddesc)) := by
+    rw [List.map_map, ← map_zipIdx_fst (fun d : DSet K L D S => ((1 : Nat), singleRdesc (τ := τ) d.ddesc)) ds]
+    rfl
+  rw [hfp, hrd]
+
+
+/-- supplying a dataset singly or as a one-element list, at the call layer: same conditions,
+    same values, the same rdm descriptors; only the further pattern descriptors are dropped
+    by `from_partials` -/
+theorem calcTop_singleton (P : Nat) (sqrt lg : K → K) (le : L → L → Bool)
+    (htrans : ∀ a b c, le a b → le b c → le a c) (htotal : ∀ a b, le a b || le b a)
+    (o : ListOpts K) (ho : o.method < 4) (hm : MethodOK P sqrt (o.specFor 0).spec.1)
+    (d : DSet K L D S) (hd : ∀ p ∈ d.odesc, p.2.length = d.obs.length) :
+    ∃ s₁ sₘ : Stack K L D S τ,
+      calcTop P sqrt lg le o (.one d) = some s₁ ∧ calcTop P sqrt lg le o (.many [d]) = some sₘ ∧
+      sₘ.labels = s₁.labels ∧ sₘ.vecs = s₁.vecs ∧
+      (∀ n, sₘ.rdesc.lookup n = s₁.rdesc.lookup n) ∧ sₘ.pdesc = [] := by
+  refine ⟨_, _, calcTop_one P sqrt lg le o ho d hd,
+    calcTop_many P sqrt lg le o ho [d] (by simpa using hd), ?_, ?_, ?_, rfl⟩
+  · simp only [List.zipIdx_cons, List.zipIdx_nil, List.map_cons, List.map_nil, Nat.zero_add]
+    rw [calcRdmList_singleton P sqrt lg le htrans htotal _ hm]
+    rfl
+  · simp only [List.zipIdx_cons, List.zipIdx_nil, List.map_cons, List.map_nil, Nat.zero_add]
+    rw [calcRdmList_singleton P sqrt lg le htrans htotal _ hm]
+    rfl
+  · intro n
+    simp only [List.map_cons, List.map_nil]
+    exact mergeStacks_single _ n
+
+
+/-- list input: the rdm descriptors of the stack have one entry per dataset; entry `k` of
+    the column `n` is dataset `k`'s own value of `n` (`none` = Python `None` if it has no such
+    descriptor), and every descriptor of every dataset has a column -/
+theorem list_rdesc_attached (ds : List (DSet K L D S)) (k : Nat) (d : DSet K L D S)
+    (hk : ds[k]? = some d) (n : String) :
+    (∀ col, (mergeStacks (ds.map (fun d => ((1 : Nat), singleRdesc (τ := τ) d.ddesc)))).lookup n =
+        some col →
+      col.length = ds.length ∧
+      col[k]? = some ((d.ddesc.lookup n).bind
+        (fun v => ((rdmEntries v).head?).map (fun e => Sum.inl e)))) ∧
+    (∀ v, d.ddesc.lookup n = some v →
+      ∃ col, (mergeStacks (ds.map (fun d => ((1 : Nat), singleRdesc (τ := τ) d.ddesc)))).lookup n =
+        some col) := by
+  set st := ds.map (fun d => ((1 : Nat), singleRdesc (τ := τ) d.ddesc)) with hst
+  have hwf : StacksWF st := by
+    intro s hs p hp
+    rw [hst] at hs
+    obtain ⟨d', _, rfl⟩ := List.mem_map.mp hs
+    simp only [singleRdesc, List.mem_map] at hp
+    obtain ⟨q, _, rfl⟩ := hp
+    simp [(rdmEntries_spec (S := S)).2.2.2 q.2]
+  have hk' : st[k]? = some ((1 : Nat), singleRdesc (τ := τ) d.ddesc) := by
+    rw [hst, List.getElem?_map, hk]; rfl
+  obtain ⟨h1, h2⟩ := mergeStacks_col st hwf k _ hk' 0 (by simp) n
+  constructor
+  · intro col hcol
+    obtain ⟨hl, he⟩ := h1 col hcol
+    have hs1 : (st.map (fun s => s.1)).sum = ds.length := by
+      rw [hst, List.map_map]
+      exact sum_map_const_one ds
+    have hs2 : ((st.take k).map (fun s => s.1)).sum = k := by
+      rw [hst, ← List.map_take, List.map_map]
+      have hkl : k < ds.length := (List.getElem?_eq_some_iff.mp hk).1
+      rw [show ((fun s : Nat × List (String × List (Option (RVal S τ))) => s.1) ∘
+        fun d : DSet K L D S => ((1 : Nat), singleRdesc (τ := τ) d.ddesc)) = fun _ => 1 from rfl,
+        sum_map_const_one, List.length_take]
+      omega
+    refine ⟨by rw [hl, hs1], ?_⟩
+    rw [hs2, Nat.add_zero] at he
+    rw [he, single_rdesc_attached]
+    cases hl' : d.ddesc.lookup n with
+    | none => rfl
+    | some v =>
+      have := (rdmEntries_spec (S := S)).2.2.2 v
+      match hx : rdmEntries v, this with
+      | [e], _ => simp [hx]
+  · intro v hv
+    exact h2 _ (by rw [single_rdesc_attached, hv]; rfl)
+
+
+section movie2
+variable [DecidableEq τ] [Add τ] [Zero τ] [Div τ] [NatCast τ]
+
+/-- `calc_rdm_movie` calls `calc_rdm` on every frame with its own method and priors
+    (signature defaults 1, 0.1) and without `remove_mean` -/
+theorem movie_frame_options (o : MovieOpts K τ) (noise : Option (Nat → Nat → K)) :
+    (o.frameOpts noise).method = o.method ∧ (o.frameOpts noise).spec = (o.frameSpec noise).spec ∧
+    (o.frameSpec noise).spec.2 = false := by
+  refine ⟨rfl, ?_, ?_⟩
+  · simp only [MovieOpts.frameOpts, MovieOpts.frameSpec, Opts.spec, Rsa.Gen.C01.movieFrameMethod,
+      Rsa.Gen.C01.movieFramePriorLambda, Rsa.Gen.C01.movieFramePriorWeight,
+      Rsa.Gen.C01.movieFrameRemoveMean, Rsa.Gen.C01.movieDefaultPriorLambda,
+      Rsa.Gen.C01.movieDefaultPriorWeight, Option.getD_some]
+    split <;> simp
+  · simp only [MovieOpts.frameSpec, Opts.spec]
+    split <;> rfl
+
+/-- helper for `topMovie_spec`, generic in the (binned or raw) data -/
+theorem topMovie_aux (P : Nat) (sqrt lg : K → K) (le : L → L → Bool) (o : MovieOpts K τ)
+    (ho : o.method < 4) (noise : Option (Nat → Nat → K)) (d : TSet K L S τ)
+    (bt : List (L × TRow K) × List τ) (fr : List (τ × Rdm K L Unit))
+    (h1 : topMovie P sqrt lg le o noise d =
+      (allSome ((frames bt.1 bt.2).map (fun f => topSingle (D := Unit) (τ := τ) P sqrt lg le
+        (o.frameOpts noise) { obs := f.2, odesc := [], ddesc := d.ddesc }))).map (fun ss =>
+          { labels := ((ss.map (fun s => s.1.labels)).head?).getD []
+            vecs := ss.map (fun s => s.1.vec.map some)
+            rdesc := setCol (mergeStacks (ss.map (fun s => ((1 : Nat), s.2)))) o.tname
+              ((uniqueFirst bt.2).map (fun t => some (Sum.inr t)))
+            pdesc := [] }))
+    (hfr : fr = (frames bt.1 bt.2).map
+      (fun f => (f.1, calcRdm (D := Unit) P sqrt lg le (o.frameSpec noise).spec.1 false f.2 []))) :
+    ∃ st, topMovie P sqrt lg le o noise d = some st ∧
+      st.vecs = fr.map (fun f => f.2.vec.map some) ∧
+      st.labels = ((fr.map (fun f => f.2.labels)).head?).getD [] ∧
+      st.rdesc.lookup o.tname = some (fr.map (fun f => some (Sum.inr f.1))) ∧
+      (∀ n v, n ≠ o.tname → d.ddesc.lookup n = some v → fr ≠ [] →
+        st.rdesc.lookup n =
+          some (fr.flatMap (fun _ => (rdmEntries v).map (fun e => some (Sum.inl e))))) := by
+  obtain ⟨hm, hsp, hrm⟩ := movie_frame_options o noise
+  set g : τ × List (L × Row K) → Rdm K L Unit × List (String × List (Option (RVal S τ))) :=
+    fun f => (calcRdm (D := Unit) P sqrt lg le (o.frameSpec noise).spec.1 false f.2 [],
+      singleRdesc d.ddesc) with hg
+  have hs : (frames bt.1 bt.2).map (fun f => topSingle (D := Unit) (τ := τ) P sqrt lg le
+      (o.frameOpts noise) { obs := f.2, odesc := [], ddesc := d.ddesc }) =
+      ((frames bt.1 bt.2).map g).map some := by
+    rw [List.map_map]
+    apply List.map_congr_left
+    intro f _
+    simp only [topSingle, List.map_nil,
+      calcRdm_call (D := Unit) P sqrt lg le (o.frameOpts noise) (by rw [hm]; exact ho) f.2 []
+        (by intro dv hdv; simp at hdv),
+      Option.map_some, Function.comp_apply, hsp, hrm, hg]
+  have hfst : (frames bt.1 bt.2).map (fun f => f.1) = uniqueFirst bt.2 := by
+    simp [frames, List.map_map, Function.comp_def]
+  rw [h1, hs, allSome_eq_some.mpr rfl, Option.map_some]
+  refine ⟨_, rfl, ?_, ?_, ?_, ?_⟩
+  · simp only [hfr, List.map_map, Function.comp_def, hg]
+  · simp only [hfr, List.map_map, Function.comp_def, hg]
+  · rw [setCol_lookup_self, hfr, List.map_map, ← hfst, List.map_map]
+    rfl
+  · intro n v hn hv hne
+    rw [setCol_lookup_ne _ _ _ _ hn]
+    unfold mergeStacks
+    rw [lookup_keys_map]
+    have hX : (singleRdesc (τ := τ) d.ddesc).lookup n =
+        some ((rdmEntries v).map (fun e => some (Sum.inl e))) := by
+      rw [single_rdesc_attached, hv]; rfl
+    have hne' : frames bt.1 bt.2 ≠ [] := by
+      intro h0; apply hne; rw [hfr, h0]; rfl
+    have hmem : n ∈ uniqueFirst ((((frames bt.1 bt.2).map g).map (fun s => ((1 : Nat), s.2))).flatMap
+        (fun s => s.2.map (fun p => p.1))) := by
+      rw [mem_uniqueFirst, List.mem_flatMap]
+      obtain ⟨f, hf⟩ := List.exists_mem_of_ne_nil _ hne'
+      refine ⟨(1, singleRdesc d.ddesc), ?_, mem_keys_of_lookup hX⟩
+      simp only [List.map_map, List.mem_map, Function.comp_apply, hg]
+      exact ⟨f, hf, trivial⟩
+    rw [if_pos hmem, hfr]
+    simp only [List.flatMap_map, hg, hX, Option.getD_some]
+
+/-- `calc_rdm_movie` for one temporal dataset through the call layer: frame `i` of the stack
+    is `calc_rdm` of the `i`-th (binned) time slice group, the `time_descriptor` entry of RDM
+    `i` is exactly the time value of that frame, and every frame carries the dataset's
+    descriptors -/
+theorem topMovie_spec (P : Nat) (sqrt lg : K → K) (le : L → L → Bool) (o : MovieOpts K τ)
+    (ho : o.method < 4) (noise : Option (Nat → Nat → K)) (d : TSet K L S τ) :
+    let fr := calcMovie (D := Unit) P sqrt lg le (o.frameSpec noise).spec.1 d.obs d.times o.bins
+    ∃ st, topMovie P sqrt lg le o noise d = some st ∧
+      st.vecs = fr.map (fun f => f.2.vec.map some) ∧
+      st.labels = ((fr.map (fun f => f.2.labels)).head?).getD [] ∧
+      st.rdesc.lookup o.tname = some (fr.map (fun f => some (Sum.inr f.1))) ∧
+      (∀ n v, n ≠ o.tname → d.ddesc.lookup n = some v → fr ≠ [] →
+        st.rdesc.lookup n =
+          some (fr.flatMap (fun _ => (rdmEntries v).map (fun e => some (Sum.inl e))))) := by
+  intro fr
+  obtain ⟨method, nz, pl, pw, tname, bins⟩ := o
+  cases bins with
+  | none =>
+    exact topMovie_aux P sqrt lg le _ ho noise d (d.obs, d.times) fr
+      (by simp [topMovie, Rsa.Gen.C01.movieSplitSource, Rsa.Gen.C01.movieTimeSource,
+            Rsa.Gen.C01.movieTimeRule, movieTimeCol, b2n]) rfl
+  | some bs =>
+    exact topMovie_aux P sqrt lg le _ ho noise d (binTime d.obs d.times bs) fr
+      (by simp [topMovie, Rsa.Gen.C01.movieSplitSource, Rsa.Gen.C01.movieTimeSource,
+            Rsa.Gen.C01.movieTimeRule, movieTimeCol, b2n]) rfl
+
+
+/-- list branch of `calc_rdm_movie`: bins, time descriptor, method and priors are forwarded
+    unchanged; the noise entry is the one with the dataset's own index -/
+theorem movie_list_options (o : MovieOpts K τ) (k : Nat) :
+    (o.optsFor k).1.frameOpts = o.frameOpts ∧ (o.optsFor k).1.bins = o.bins ∧
+    (o.optsFor k).1.tname = o.tname ∧ (o.optsFor k).2 = o.noiseFor k := by
+  refine ⟨?_, ?_, ?_, ?_⟩
+  · funext nz
+    simp only [MovieOpts.optsFor, MovieOpts.frameOpts, Rsa.Gen.C01.movieListMethod,
+      Rsa.Gen.C01.movieListPriorLambda, Rsa.Gen.C01.movieListPriorWeight, Option.getD_some]
+  · simp [MovieOpts.optsFor, Rsa.Gen.C01.movieListBins]
+  · simp [MovieOpts.optsFor, Rsa.Gen.C01.movieListTdesc]
+  · simp only [MovieOpts.optsFor, MovieOpts.noiseFor, Rsa.Gen.C01.movieListNoiseIndex]
+
+/-- supplying temporal datasets as a list = stacking the per-dataset movies, each computed
+    with the call's own options (bins, time descriptor, priors, method) and *its own* noise
+    entry; a single temporal dataset is the one-movie case -/
+theorem movieTop_forms (P : Nat) (sqrt lg : K → K) (le : L → L → Bool) (o : MovieOpts K τ) :
+    (∀ d : TSet K L S τ,
+      movieTop P sqrt lg le o (.one d) = topMovie P sqrt lg le o (o.noiseFor 0) d) ∧
+    (∀ ds : List (TSet K L S τ), movieTop P sqrt lg le o (.many ds) =
+      (allSome (ds.zipIdx.map (fun dk => topMovie P sqrt lg le o (o.noiseFor dk.2) dk.1))).map
+        (fun ms =>
+          { labels := ((ms.map (fun m => m.labels)).head?).getD []
+            vecs := ms.flatMap (fun m => m.vecs)
+            rdesc := mergeStacks (ms.map (fun m => (m.vecs.length, m.rdesc)))
+            pdesc := [] })) := by
+  refine ⟨fun d => rfl, fun ds => ?_⟩
+  have : ∀ (k : Nat) (d : TSet K L S τ),
+      topMovie P sqrt lg le (o.optsFor k).1 (o.optsFor k).2 d =
+        topMovie P sqrt lg le o (o.noiseFor k) d := by
+    intro k d
+    obtain ⟨h1, h2, h3, h4⟩ := movie_list_options o k
+    simp only [topMovie, h1, h2, h3, h4]
+  simp only [movieTop, this]
+end movie2
+
+
+/-! ### input forms -/
+
+/-- int64 data are computed with as their float64 values -/
+theorem parse_int_eq_float (X : List (List Int)) :
+    (RawData.ints X : RawData K).rows =
+      (RawData.floats (X.map (fun r => r.map (fun i => (Int.cast i : K))))).rows := by
+  simp [RawData.rows, List.map_map, Function.comp_def]
+
+/-- list and array descriptors denote the same column -/
+theorem parse_container {β : Type} (l : List β) :
+    (RawDesc.list l).parse = (RawDesc.array l).parse := rfl
+
+/-- integer-typed measurements: the per-condition means as the code stores them (float64
+    buffer, leaf `meanBufferFloat`) are the exact means of the integer rows -/
+theorem condMeansInt_eq (lab : List L) (rows : List (List Int)) (hlen : rows.length = lab.length) :
+    condMeansInt (α := K) lab rows = condMeans (lab.zip (RawData.ints rows : RawData K).rows) := by
+  have hl : (RawData.ints rows : RawData K).rows.length = lab.length := by
+    simp [RawData.rows, hlen]
+  have h1 : (lab.zip (RawData.ints rows : RawData K).rows).map (fun p => p.1) = lab := by
+    rw [List.map_fst_zip]; omega
+  have h2 : (lab.zip (RawData.ints rows : RawData K).rows).map (fun p => p.2) =
+      (rows.map intRow).map (fun r => fun c => (Int.cast (r c) : K)) := by
+    rw [List.map_snd_zip (by omega)]
+    simp only [RawData.rows, List.map_map]
+    apply List.map_congr_left
+    intro r _
+    exact rowOfList_cast r
+  unfold condMeansInt condMeans
+  simp only [h1, h2, Rsa.Gen.C01.meanBufferFloat, if_true, selRows]
+  apply List.map_congr_left
+  intro i _
+  simp only [zip_filterMap_map]
+
+
+/-- `_merged_rdm_descriptors` on stacks of several RDMs (`concat` of movies, `from_partials`):
+    RDM `j` of stack `k` sits at position `Σ_{i<k} size i + j` of every merged column and
+    carries that stack's own entry (`none` if the stack has no such descriptor); every
+    column has one entry per RDM; every descriptor of every stack has a column -/
+theorem mergeStacks_spec {V : Type} (st : List (Nat × List (String × List (Option V))))
+    (hwf : StacksWF st) (k : Nat) (s : Nat × List (String × List (Option V)))
+    (hk : st[k]? = some s) (j : Nat) (hj : j < s.1) (n : String) :
+    (∀ col, (mergeStacks st).lookup n = some col →
+      col.length = (st.map (fun s => s.1)).sum ∧
+      col[((st.take k).map (fun s => s.1)).sum + j]? =
+        some (match s.2.lookup n with
+          | none => none
+          | some c => (c[j]?).getD none)) ∧
+    (∀ c, s.2.lookup n = some c → ∃ col, (mergeStacks st).lookup n = some col) :=
+  mergeStacks_col st hwf k s hk j hj n
+
+/-! non-vacuity of the hypotheses of this section -/
+
+/-- a poisson call without priors: `method < 4`, and the meaning is poisson with 1 and 0.1 -/
+example : (⟨3, none, none, none, false⟩ : Opts ℚ).method < 4 ∧
+    (⟨3, none, none, none, false⟩ : Opts ℚ).spec = (.poisson 1 (1 / 10), false) :=
+  ⟨by decide, by simp [Opts.spec]⟩
+
+/-- a dataset whose obs descriptors have one value per observation (hypothesis `hd`) -/
+example : ∀ p ∈ (⟨[(1, fun _ => 0), (2, fun _ => 1)], [("run", [7, 8])],
+    [("subj", .scalar 3)]⟩ : DSet ℚ Int Int Int).odesc, p.2.length = 2 := by
+  intro p hp
+  simp only [List.mem_singleton] at hp
+  subst hp
+  rfl
+
+/-- two well-formed stacks (2 and 1 RDMs) for `mergeStacks_spec` -/
+example : StacksWF ([(2, [("time", [some 0, some 1])]), (1, [("subj", [some 5])])] :
+    List (Nat × List (String × List (Option Int)))) := by
+  intro s hs p hp
+  simp only [List.mem_cons, List.not_mem_nil, or_false] at hs
+  rcases hs with rfl | rfl <;> simp only [List.mem_singleton] at hp <;> subst hp <;> rfl
+
+/-- `calcTop_singleton` applies to euclidean on rational data with integer labels -/
+example (d : DSet ℚ Int Int Int) (hd : ∀ p ∈ d.odesc, p.2.length = d.obs.length) :=
+  calcTop_singleton (K := ℚ) (τ := ℚ) 2 id id (fun a b => decide (a ≤ b))
+    (fun a b c h1 h2 => by simp only [decide_eq_true_eq] at *; omega)
+    (fun a b => by simp only [Bool.or_eq_true, decide_eq_true_eq]; omega)
+    ⟨0, .none, none, none, false⟩ (by decide) trivial d hd
+
+end callLayer
 
 /-! ### movies -/
 
